@@ -36,9 +36,16 @@ MANIFEST = dict(
          "READS - each block's records split arbitrarily between several ARead steps, also between the two halves of a rename "
          "(C03_contract_cuts, C03_sound_pipeline_cuts, via the cuts theorems of C01/C02; no operation and no tick between the "
          "reads of a block), and with LOOSE TIMING after the reads - the pairing delay in several parts, queue_events before the "
-         "delay of a lone IN_MOVED_FROM has elapsed, items delivered early (C03_contract_loose, C03_blocks_sound_loose); STATED "
-         "ONLY (C03_sound_full_current): soundness over all interleavings - operations before the previous block is drained "
-         "(bursts), ticks or queue_events between the reads of a block. "
+         "delay of a lone IN_MOVED_FROM has elapsed, items delivered early (C03_contract_loose, C03_blocks_sound_loose); BURSTS "
+         "of FILE-LEVEL operations (touch, write, chmod of a file, unlink, file renames inside/in/out/replacing - several "
+         "operations back to back before a read, from a synchronised state): records about files are read independently of "
+         "file system and kernel state (C03_read_batch_file), so the stream is the concatenation of the per-operation "
+         "contracts, each taken at the state in which its operation ran, and every event is justified by an operation of the "
+         "burst (C03_burst_files_contract, C03_burst_files_sound at the read_batch/delivered level; C03_burst_files_pipeline on the "
+         "Pipeline model: AOp ... AOp; the reads cut arbitrarily; ticks/queue_events; delay; emits - sound_along holds and the "
+         "final state is synchronised again; side condition: the kernel coalesced no record across an operation border - only "
+         "`chmod f; chmod f` does); STATED ONLY (C03_sound_full_current): soundness over all interleavings - bursts with "
+         "directory operations, operations or ticks/queue_events between the reads of a block. "
          "Pipeline model in lock-step against the real observer on the real kernel (see C01); completeness: in "
          "one-at-a-time histories the events delivered for each operation must equal the per-operation contract written "
          "from the property text; soundness: in arbitrary (also unpaced) histories every delivered event must be explained "
